@@ -184,6 +184,13 @@ func (fr *Frame) preludeCall(st *State, name string, fn *ssa.Function, args []Va
 			return Val{T: Forall(bs, Implies(And(facts...), body))}, true
 		}
 		return Val{T: Exists(bs, And(append(facts, body)...))}, true
+	case "__allocatedRef":
+		// allocated() for references Go's type system does not let the generic take (channels, maps)
+		x := unboxArg(args[0].T)
+		if x.Sort != SRef {
+			ex.unsupported("allocatedRef on a non-reference value")
+		}
+		return Val{T: Select(ex.get(st, "Alloc", ArraySort(SRef, SBool)), x)}, true
 	case "__distinctRefs":
 		// two references of different Go types (which Go cannot compare) denote different objects
 		x, y := unboxArg(args[0].T), unboxArg(args[1].T)
@@ -212,18 +219,18 @@ func (fr *Frame) preludeCall(st *State, name string, fn *ssa.Function, args []Va
 		comp, cs, _ := ex.visitedComp(mt)
 		return Val{T: Select(Select(ex.get(st, comp, cs), args[0].T), args[1].T)}, true
 	case "__sentN":
-		return Val{T: Select(ex.get(st, "ChanSentN", ArraySort(SRef, SInt)), args[0].T)}, true
+		return Val{T: Select(ex.get(st, "ChanSentN_"+typeKey(chanElem(cc.Args[0].Type())), ArraySort(SRef, SInt)), args[0].T)}, true
 	case "__sentAt":
 		seq, ss, _ := ex.chanComps(chanElem(cc.Args[0].Type()))
 		return Val{T: Select(Select(ex.get(st, seq, ss), args[0].T), args[1].T)}, true
 	case "__recvN":
-		return Val{T: Select(ex.get(st, "ChanRecvN", ArraySort(SRef, SInt)), args[0].T)}, true
+		return Val{T: Select(ex.get(st, "ChanRecvN_"+typeKey(chanElem(cc.Args[0].Type())), ArraySort(SRef, SInt)), args[0].T)}, true
 	case "__recvAt":
 		elem := chanElem(cc.Args[0].Type())
 		es := ex.ctx.SortOf(elem)
 		return Val{T: Select(Select(ex.get(st, "ChanRecv_"+typeKey(elem), ArraySort(SRef, ArraySort(SInt, es))), args[0].T), args[1].T)}, true
 	case "__closed":
-		return Val{T: Select(ex.get(st, "ChanClosed", ArraySort(SRef, SBool)), args[0].T)}, true
+		return Val{T: Select(ex.get(st, "ChanClosed_"+typeKey(chanElem(cc.Args[0].Type())), ArraySort(SRef, SBool)), args[0].T)}, true
 	case "__held":
 		l := unboxArg(args[0].T)
 		return Val{T: Eq(Select(ex.get(st, "LockState", ArraySort(SRef, SInt)), l), IntLit(1))}, true
@@ -452,6 +459,10 @@ func (fr *Frame) applyContract(st *State, fn *ssa.Function, c *LoadedContract, a
 	}
 	for _, cl := range clauses {
 		if cl.Kind == "ensures" {
+			if hasTag(cl.Tags, "always") {
+				ex.assume(st, ex.inst(Implies(cl.PC, cl.Cond), pre, st))
+				continue
+			}
 			ex.assume(st, Implies(notCase, ex.inst(Implies(cl.PC, cl.Cond), pre, st)))
 		}
 	}
